@@ -148,7 +148,10 @@ impl RK4 {
 
             // Adjust last step so we land exactly on xend
             let mut last = false;
+            let h_fixed = h;
+            let mut h = h_fixed;
             if (x + 1.01 * h - xend) * h.signum() > 0.0 {
+                h = xend - x;
                 last = true;
             }
 
